@@ -48,6 +48,7 @@ class Under(io.RawIOBase):
     def __init__(self, data, k, has_readinto, err_at):
         self.data, self.pos, self.k, self.err_at, self.ncalls, self.has = data, 0, k, err_at, 0, has_readinto
         self.branch = set()
+        self.raised = False
 
     def readable(self):
         return True
@@ -55,6 +56,7 @@ class Under(io.RawIOBase):
     def _take(self, n):
         self.ncalls += 1
         if self.err_at is not None and self.ncalls == self.err_at:
+            self.raised = True
             raise OSError("injected")
         if n is None or n < 0:
             n = len(self.data)
@@ -230,6 +232,12 @@ def run_case(W, rec, cfg, ops):
         rec.violation("C09/pos-differs-from-bytes-returned", f"_pos {st._pos} vs returned {len(out)}; {case}", case, monitor="byte-accounting")
         return
     short = len(data) < L
+    if u.raised:
+        rec.observe("underlying_error_injected_and_hit" + (":is_max" if is_max else ""))
+        if term is None:
+            # an I/O error of the wrapped stream is not the end of the body, whatever kind of limit is in force
+            rec.violation("C09/underlying-error-swallowed", f"the wrapped stream raised OSError, the operations returned {out!r} and no exception; {case}", case, monitor="model")
+            return
     if term == "ClientDisconnected" and not (err is not None or (short and not is_max)):
         rec.violation("C09/spurious-ClientDisconnected", f"{case}", case, monitor="model")
         return
